@@ -4,7 +4,8 @@ usage: tools/confirm_seed.py <Cxx> <mN> [<check-prop> ...]"""
 import json, os, shutil, subprocess, sys
 prop, m = sys.argv[1], sys.argv[2]
 checks = sys.argv[3:] or [prop]
-src = f"/tmp/wt/{prop}/_seed" if os.path.isdir(f"/tmp/wt/{prop}/_seed") else f"/tmp/seeds_backup/{prop}"
+src = os.environ.get("SEED_SRC") or (f"/tmp/wt/{prop}/_seed" if os.path.isdir(f"/tmp/wt/{prop}/_seed") else f"/tmp/seeds_backup/{prop}")
+store_as = os.environ.get("SEED_AS") or m
 wt = "/tmp/wt/confirm"
 def sh(cmd, **kw):
     return subprocess.run(cmd, shell=True, capture_output=True, text=True, **kw)
@@ -25,7 +26,7 @@ res["confirmed"] = ok
 print(json.dumps(res))
 if not ok:
     sys.exit(1)
-sid = f"{prop}-{m}"
+sid = f"{prop}-{store_as}"
 dst = f"/verif/seeded/{sid}"
 os.makedirs(dst, exist_ok=True)
 shutil.copy(f"{src}/{m}.diff", f"{dst}/patch.diff")
